@@ -70,6 +70,17 @@ def import_target():
     if os.path.realpath(where) != os.path.realpath(repo):
         print(f"INCONCLUSIVE reason=kaira imported from {where}, expected {repo}")
         sys.exit(2)
+    if os.environ.get("VK_MONITORS", "1") != "0":
+        from vk import monitors
+
+        monitors.install()
+
+
+def flush_monitors(ctx):
+    if os.environ.get("VK_MONITORS", "1") != "0":
+        from vk import monitors
+
+        monitors.flush_into(ctx)
 
 
 def child_main(args):
@@ -84,6 +95,7 @@ def child_main(args):
         units = json.load(f)
     ctx = core.Ctx(args.property, args.tier, args.seed)
     core.run_units(ctx, module, units)
+    flush_monitors(ctx)
     with open(args.out, "w") as f:
         json.dump(ctx.to_json(), f)
     return 0
@@ -127,6 +139,7 @@ def main():
         import_target()
         ctx = core.Ctx(args.property, rp.get("tier", args.tier), rp.get("seed", args.seed))
         core.run_units(ctx, module, [rp["unit"]])
+        flush_monitors(ctx)
         hit = rp["key"] in ctx.violations
         print(f"replay of {rp['key']}: {'REPRODUCED' if hit else 'not reproduced'}")
         rc = core.finish(ctx, module, replay_mode=True)
@@ -142,6 +155,7 @@ def main():
     if jobs == 1:
         import_target()
         core.run_units(ctx, module, units)
+        flush_monitors(ctx)
     else:
         timeout = getattr(module, "TIMEOUT", {}).get(args.tier, 3600)
         tmp = tempfile.mkdtemp(prefix=f"vk-{args.property}-", dir=os.path.join(VERIF, ".partial") if os.path.isdir(os.path.join(VERIF, ".partial")) else None)
